@@ -1,6 +1,6 @@
 //! Property routing: which engine and which bounds decide each property, per tier.
 
-use crate::arith::{self, BinPlan};
+use crate::arith::{self, BinPlan, UnaryAlphabet, UnaryPlan};
 use crate::common::*;
 use crate::report::Part;
 use mccore::dispatch::{BinOp, Form, ALL_FORMS};
@@ -31,9 +31,118 @@ fn c01_plan(cfg: &Cfg) -> BinPlan {
     }
 }
 
+fn c02_plan(cfg: &Cfg) -> BinPlan {
+    let q = cfg.quick();
+    BinPlan {
+        ops: vec![BinOp::Div, BinOp::Rem],
+        forms: vec![Form::RefRef, Form::AsgRef],
+        div_rem: true,
+        full_lhs: vec![K::F8x1, K::F8x2, K::F8x3, K::F16x1, K::D, K::A],
+        full_rhs: vec![K::F8x1, K::F8x2, K::F8x3, K::F16x1, K::F64x2, K::D, K::A],
+        full_b: if q { 5 } else { 7 },
+        deep: if q { vec![(K::F8x2, K::F8x2, 6)] } else { vec![(K::F8x2, K::F8x2, 9), (K::F8x2, K::F8x3, 9), (K::F8x2, K::D, 9), (K::D, K::F8x2, 9)] },
+        lat_lhs: ALL_KINDS.to_vec(),
+        lat_rhs_classes: if q { vec![K::F8x3, K::F64x2, K::F128x2, K::D, K::A] } else { ALL_KINDS.to_vec() },
+        lat_same_kind: true,
+        lat_runs: 2,
+        lat_short: q,
+        nat_complete_u8: true,
+        nat_complete_u16: false,
+        nat_full_b: if q { 4 } else { 6 },
+    }
+}
+
+fn c04_plan(cfg: &Cfg) -> BinPlan {
+    let q = cfg.quick();
+    BinPlan {
+        ops: vec![BinOp::And, BinOp::Or, BinOp::Xor],
+        forms: vec![Form::RefRef, Form::AsgRef],
+        div_rem: false,
+        full_lhs: vec![K::F8x1, K::F8x2, K::F8x3, K::F16x1, K::D, K::A],
+        full_rhs: vec![K::F8x1, K::F8x2, K::F8x3, K::F16x1, K::F64x2, K::D, K::A],
+        full_b: if q { 5 } else { 8 },
+        deep: if q { vec![(K::F8x2, K::F8x3, 7)] } else { vec![(K::F8x2, K::F8x2, 10), (K::F8x2, K::F8x3, 10), (K::F8x2, K::D, 10)] },
+        lat_lhs: ALL_KINDS.to_vec(),
+        lat_rhs_classes: if q { vec![K::F8x3, K::F64x2, K::F128x2, K::D, K::A] } else { ALL_KINDS.to_vec() },
+        lat_same_kind: true,
+        lat_runs: if q { 2 } else { 3 },
+        lat_short: q,
+        nat_complete_u8: true,
+        nat_complete_u16: !q,
+        nat_full_b: if q { 4 } else { 6 },
+    }
+}
+
+fn merge3(a: (Part, Value, bool), b: (Part, Value, bool)) -> (Part, Value, bool) {
+    (a.0.merge(b.0), serde_json::json!([a.1, b.1]), a.2 && b.2)
+}
+
+fn c04_not(cfg: &Cfg) -> UnaryPlan {
+    let q = cfg.quick();
+    UnaryPlan {
+        full: vec![(vec![K::F8x1, K::F8x2, K::F16x1, K::D, K::A], if q { 10 } else { 16 }, UnaryAlphabet::Not), (vec![K::F8x3], if q { 10 } else { 20 }, UnaryAlphabet::Not)],
+        lat: vec![(ALL_KINDS.to_vec(), 3, UnaryAlphabet::Not)],
+        lat_short: q,
+        required: vec![],
+    }
+}
+
+fn c05_plan(cfg: &Cfg) -> UnaryPlan {
+    let q = cfg.quick();
+    let f6 = ALL_FORMS.to_vec();
+    let f3 = vec![Form::ValVal, Form::AsgRef, Form::RefRef];
+    let mut full = vec![
+        (vec![K::F8x1, K::F8x2, K::F8x3], if q { 8 } else { 12 }, UnaryAlphabet::Shifts { forms: f6.clone(), all_types: true }),
+        (vec![K::D, K::A, K::F16x1], if q { 6 } else { 9 }, UnaryAlphabet::Shifts { forms: f6.clone(), all_types: true }),
+        (vec![K::F8x1, K::F8x2, K::F8x3], 8, UnaryAlphabet::ShiftsComplete { ty: NatTy::U8, forms: vec![Form::ValVal, Form::AsgVal] }),
+        (vec![K::F8x1, K::F8x2, K::F8x3, K::D, K::A], if q { 3 } else { 6 }, UnaryAlphabet::ShiftsComplete { ty: NatTy::U16, forms: vec![Form::AsgVal] }),
+        (vec![K::F8x1, K::F8x2, K::F8x3, K::F16x1, K::D, K::A], if q { 10 } else { 14 }, UnaryAlphabet::ShiftIn),
+    ];
+    if !q {
+        full.push((vec![K::F8x2], 16, UnaryAlphabet::Shifts { forms: f3.clone(), all_types: false }));
+        full.push((vec![K::F8x3], 20, UnaryAlphabet::Shifts { forms: vec![Form::AsgVal], all_types: false }));
+        full.push((vec![K::F8x2], 16, UnaryAlphabet::ShiftIn));
+        full.push((vec![K::F8x3], 20, UnaryAlphabet::ShiftIn));
+    }
+    UnaryPlan {
+        full,
+        lat: vec![
+            (ALL_KINDS.to_vec(), if q { 2 } else { 3 }, UnaryAlphabet::Shifts { forms: if q { f3.clone() } else { f6.clone() }, all_types: !q }),
+            (ALL_KINDS.to_vec(), 3, UnaryAlphabet::ShiftIn),
+        ],
+        lat_short: q,
+        required: vec!["shift_amount_above_usize_max", "shift_amount_ge_len", "shift_inside_multiword", "shift_in_on_empty"],
+    }
+}
+
+fn c06_plan(cfg: &Cfg) -> UnaryPlan {
+    let q = cfg.quick();
+    let mut full = vec![
+        (vec![K::F8x1, K::F8x2, K::F8x3, K::F16x1, K::D, K::A], if q { 9 } else { 12 }, UnaryAlphabet::Rot { inverse: true }),
+    ];
+    if !q {
+        full.push((vec![K::F8x2], 16, UnaryAlphabet::Rot { inverse: false }));
+        full.push((vec![K::F8x3], 20, UnaryAlphabet::Rot { inverse: false }));
+    }
+    UnaryPlan {
+        full,
+        lat: vec![(ALL_KINDS.to_vec(), if q { 2 } else { 3 }, UnaryAlphabet::Rot { inverse: true })],
+        lat_short: q,
+        required: vec!["rotation_across_word_boundary", "rotation_of_empty"],
+    }
+}
+
 pub fn run(cfg: &Cfg) -> Option<(Part, Value, bool)> {
     match cfg.prop.as_str() {
         "C01" => Some(arith::run_bin_plan(cfg, &c01_plan(cfg))),
+        "C02" => Some(arith::run_bin_plan(cfg, &c02_plan(cfg))),
+        "C04" => Some(merge3(arith::run_bin_plan(cfg, &c04_plan(cfg)), arith::run_unary_plan(cfg, &c04_not(cfg)))),
+        "C05" => Some(arith::run_unary_plan(cfg, &c05_plan(cfg))),
+        "C06" => Some(arith::run_unary_plan(cfg, &c06_plan(cfg))),
+        "C03" => Some(crate::hist::run_c03(cfg)),
+        "C07" => Some(crate::hist::run_c07(cfg)),
+        "C18" => Some(crate::hist::run_c18(cfg)),
+        "C20" => Some(arith::run_forms_plan(cfg, if cfg.quick() { 4 } else { 6 }, true, &[K::F64x2, K::D, K::A])),
         _ => None,
     }
 }
@@ -48,6 +157,14 @@ pub fn replay(j: &Value, profile: &'static str, dbg: bool) -> i32 {
     println!("replay property={} profile={} root={} check={}", cfg.prop, profile, root, check);
     let part = if check == "state" || check == "battery" {
         match replay_ops(&cfg, root, &ops) {
+            Ok(p) => p,
+            Err(e) => {
+                eprintln!("{}", e);
+                return 2;
+            }
+        }
+    } else if check == "forms" {
+        match arith::replay_forms(&cfg, root, &ops) {
             Ok(p) => p,
             Err(e) => {
                 eprintln!("{}", e);
